@@ -186,11 +186,12 @@ Proof.
     destruct (task_le (itask x) (itask m)) eqn:L.
     + exists m. repeat split; auto. right; auto.
       unfold is_max in *. cbn [forallb]. rewrite L. auto.
-    + exists x. repeat split; auto. left; auto.
-      unfold is_max in *. cbn [forallb]. rewrite task_le_refl. cbn [andb].
-      apply forallb_forall. intros j J. rewrite forallb_forall in M. specialize (M j J).
-      destruct (task_le_total (itask x) (itask m)); [congruence|].
-      eapply task_le_trans; eauto.
+    + exists x. split; [auto|]. split; [left; auto|].
+      unfold is_max in *. apply forallb_forall. intros j [<-|J].
+      * apply task_le_refl.
+      * rewrite forallb_forall in M. specialize (M j J).
+        destruct (task_le_total (itask x) (itask m)); [congruence|].
+        eapply task_le_trans; eauto.
 Qed.
 
 (* --------------------------------------------------------------------------------------- first_waiter *)
